@@ -33,7 +33,8 @@ OPTION_KEYS_ADMONITION = {"class", "name"}
 # See https://github.com/micromark/micromark-extension-gfm-tagfilter
 RE_FLOW = re.compile(
     r"<(\/?)(iframe|noembed|noframes|plaintext|script|style|title|textarea|xmp)(?=[\t\n\f\r />])",
-    re.IGNORECASE,
+    # ASCII: otherwise "i" and "s" also match U+0130, U+0131 and U+017F ("<tıtle>")
+    re.IGNORECASE | re.ASCII,
 )
 
 
